@@ -3,7 +3,7 @@
     WeightedSum with its memo).  This file contains only statements; proofs are in
     FVP.Static_proofs.  (The scheduler-level theorem C20_sched_through_pull is stated on the
     scheduler model.) *)
-From Coq Require Import List ZArith QArith Bool.
+From Coq Require Import List ZArith QArith Bool Permutation.
 From FV Require Import Base Static.
 From FVP Require Import Static_proofs.
 From FV Require Sched C20Mix.
@@ -238,6 +238,34 @@ Example C20_memo_needed_with_delay_to_pull :
   /\ distinct_runs None [3; 3; 5] = 2%nat.
 Proof. vm_compute. repeat split. Qed.
 
+(** Connect phase: a WeightedSum that is not validated yet answers from the connector's start-time
+    data and does NOT remember that answer under the requested time (only data pulled for a time
+    may be served again for it). *)
+Theorem C20_weighted_sum_connect_phase :
+  forall (St : Type) (pull : St -> nat -> Z -> St * res Q) (units : list Q) (w : wstate) (s : St) (t : Z) (ind : list Q),
+    ws_valid w = false -> ws_last w = None -> all_some (ws_fetched w) = Some ind ->
+    ws_get pull units w s t = (mkW (ws_fetched w) false None (wsum units ind), s, Ok (wsum units ind)).
+Proof. intros St. exact (@ws_connect_phase_no_memo St). Qed.
+
+(** Gridded data with missing cells: a cell of the sum is missing iff it is missing in one of the
+    terms value_i * weight_i; otherwise it is the sum of the terms; and the order of the terms
+    (the order in which the inputs are named) changes neither which cells are missing nor the sum. *)
+Theorem C20_weighted_sum_cells :
+  (forall l : list (option Q), cell_sum l = None <-> In None l)
+  /\ (forall (l : list (option Q)) (q : Q), cell_sum l = Some q -> (q == qsum_opt l)%Q)
+  /\ (forall l l' : list (option Q), Permutation l l' -> opt_Qeq (cell_sum l) (cell_sum l')).
+Proof. split; [exact cell_sum_none_iff|split; [exact cell_sum_some|exact cell_sum_perm]]. Qed.
+
+(** plain array named first, masked array second (and the other way round): cell 1 is missing *)
+Example C20_weighted_sum_cells_nonvacuous :
+  ws_cells [1%Q; 1%Q] 1 3 [[Some 11%Q; Some 11%Q; Some 11%Q]; [Some (1 # 2)%Q; Some (1 # 2)%Q; Some (1 # 2)%Q];
+                           [Some 101%Q; None; Some 101%Q]; [Some 2%Q; Some 2%Q; Some 2%Q]]
+  = [Some (415 # 2)%Q; None; Some (415 # 2)%Q]
+  /\ ws_cells [1%Q; 1%Q] 1 3 [[Some 101%Q; None; Some 101%Q]; [Some 2%Q; Some 2%Q; Some 2%Q];
+                              [Some 11%Q; Some 11%Q; Some 11%Q]; [Some (1 # 2)%Q; Some (1 # 2)%Q; Some (1 # 2)%Q]]
+  = [Some (415 # 2)%Q; None; Some (415 # 2)%Q].
+Proof. vm_compute. split; reflexivity. Qed.
+
 (** Scheduler level (model FV.Sched; the correspondence check of C20 runs compositions with pull-based components
     against it, [C20Mix.c20_check2]).  Whenever the driver advances a time component [u], every dependency of [u] is
     served for [u]'s announced time: a time-stepped source has published at or beyond the time the link needs, and a
@@ -265,6 +293,8 @@ Proof.
 Qed.
 
 Print Assumptions C20_static_output.
+Print Assumptions C20_weighted_sum_connect_phase.
+Print Assumptions C20_weighted_sum_cells.
 Print Assumptions C20_weighted_sum_one_pull_per_time.
 Print Assumptions C20_sched_through_pull.
 Print Assumptions C20_sched_pulls_succeed.
